@@ -173,6 +173,10 @@ def load(path):
     if os.environ.get("FLAN_NO_INLINE") != "1":
         from . import inline
         inline.inline_program(d)
+    # Option/Result/bool combinators applied to a closure of this crate are rewritten to the match they stand for (see combinators.py)
+    if os.environ.get("FLAN_NO_COMBINATORS") != "1":
+        from . import combinators
+        combinators.rewrite_program(d)
     # constant boolean joins (`matches!`, `&&`, `||`) are threaded so that flow queries do not see their infeasible paths (see normalize.py)
     if os.environ.get("FLAN_NO_THREAD") != "1":
         from . import normalize
